@@ -72,8 +72,35 @@ fn gen_line(rng: &mut Rng) -> String {
     s
 }
 
+/// Well-formed sequences of fenced code blocks in one comment: every embedded-language lexer
+/// runs on a non-empty body, and the lexer state of one block (e.g. an unterminated block
+/// comment or long string) must not leak into the next block.
+fn gen_fence_sequence(rng: &mut Rng) -> Vec<String> {
+    const LANGS: &[&str] = &["lua", "sql", "json", "shell", "vim", "protobuf", "Lua", "vimscript", "", "other"];
+    let mut lines = Vec::new();
+    if rng.bool() {
+        lines.push("--- some text before\n".to_string());
+    }
+    for _ in 0..rng.range(2, 4) {
+        let fence = if rng.chance(1, 4) { "~~~" } else { "```" };
+        lines.push(format!("--- {fence}{}\n", rng.pick(LANGS)));
+        for _ in 0..rng.range(1, 3) {
+            lines.push(format!("--- {}\n", rng.pick(CODE_LINES)));
+        }
+        lines.push(format!("--- {fence}\n"));
+        if rng.chance(1, 3) {
+            lines.push(format!("--- {}\n", gen_line(rng)));
+        }
+    }
+    lines.push("local function f(x) end\n".to_string());
+    lines
+}
+
 /// A case is a list of source lines (comment prefix + body); the list is what ddmin shrinks.
 fn gen_case(rng: &mut Rng, max_lines: usize) -> Vec<String> {
+    if rng.chance(1, 6) {
+        return gen_fence_sequence(rng);
+    }
     let n = rng.range(1, max_lines);
     let style = rng.below(10);
     let base_prefix = rng.pick(PREFIXES);
